@@ -658,9 +658,12 @@ impl WireProp for DhcpWire {
                 }
                 std::thread::sleep(Duration::from_millis(60));
                 self.raw.drain();
-                // liveness: a well-formed DISCOVER must be answered
+                // liveness: a well-formed DISCOVER must be answered.  Four probe clients take
+                // turns: each holds a lease from its first turn on, so the probe is answered
+                // even when well-formed members of the hostile batches (every distinct client
+                // identifier is a client) have used up the /24 meanwhile
                 let k = self.next();
-                let m = discover(5000 + k as usize, 0x3000_0000 + k, 0x8000);
+                let m = discover(5000 + (k % 4) as usize, 0x3000_0000 + k, 0x8000);
                 let r = dhcp_exchange(&self.raw, &m, Duration::from_secs(3));
                 let mut srv = self.srv.lock().unwrap();
                 let panics = srv.panics();
